@@ -14,7 +14,9 @@ RULE = ("Generated bar-shaped episodes (3-10 timesteps with mixed gaps, 1-3 cont
         "Non-trivial = >= 2 executions with non-zero trades, spread or fees > 0, and a quote change between executions.")
 ASSUMPTIONS = [
     "money tolerance abs 1e-9 * (deposit + traded notional + open notional); trade prices compared with ==",
-    "episodes ended by insolvency are cut at the ruin (C09) and counted as excluded",
+    "episodes ended by insolvency are cut at the ruin (C09) and counted as excluded; when the ruin is caused by the costs of an executed decision (one non-chain "
+    "case in seven has a fixed commission of 30%-150% of the deposit) that execution must still have its entry: recorded trades replayed on the ledger give the "
+    "recorded holdings and a context_post NLV <= 0 equal to the ledger's, and the step reports done",
     "bar-shaped data: every contract quoted at every timestep; latency < min gap",
 ]
 
@@ -31,6 +33,8 @@ def run(case):
         res.tag("latency>0")
     if stats["interest_nonzero"]:
         res.tag("interest")
+    if stats.get("cost_ruin"):
+        res.tag("execution-whose-own-costs-exhaust-the-account")
     if case.get("shock"):
         res.tag("shock-step-multiplies-NLV")
     if case.get("second_episode"):
@@ -56,6 +60,12 @@ def cases(draw, tier="quick"):
         c = draw(E.episode_cases(tier))
         if draw(st.sampled_from([False, False, False, True])):
             shock(draw, c)
+        elif draw(st.sampled_from([False, False, False, False, True])):
+            # a fixed commission of the order of the whole account: the costs of some execution exhaust it
+            c["fees"][0] = c["deposit"] * draw(st.sampled_from([0.3, 0.45, 0.7, 1.5]))
+            for a in c["actions"]:
+                a[0] = a[0] if abs(a[0]) >= 0.05 else 0.25
+            c["costly"] = True
     c["second_episode"] = draw(st.sampled_from([False, False, True]))    # a second episode on the same environment
     return c
 
